@@ -55,6 +55,32 @@ def state_test(facts, t, c):
     return None
 
 
+def state_infeasible(facts, lf):
+    """True when the path tests the same connection's state twice with contradicting outcomes and nothing that could
+    change the state lies between the two tests (`if c.state == AwaitingOutgoing { .. match c.state { Closed => .. } }`:
+    a helper that maps the state to an event set, traversed inline, has arms the caller's test already excluded)."""
+    known = {}
+    for e in lf.events:
+        if e[0] == "cond":
+            st = state_test(facts, e[3], e[4])
+            if st:
+                k = norm(st[0])
+                cur = known.get(k)
+                cur = set(st[1]) if cur is None else (cur & set(st[1]))
+                if not cur:
+                    return True
+                known[k] = cur
+        elif e[0] == "assign":
+            if "(*" in e[3] or "state" in e[3]:      # a store through a reference / into a state field; plain locals cannot alias it
+                known.clear()
+        elif e[0] == "call":
+            if last_seg(e[3]) in ("eq", "ne") and "PartialEq" in e[3]:
+                continue
+            if e[3] in facts.fns or any(isinstance(a, tuple) and a and a[0] == "ref" and len(a) > 2 and a[2] for a in e[4][2]):
+                known.clear()
+    return False
+
+
 def eventset_value(t):
     """Integer value of an EventSet expression built from constants with BitOr."""
     t = look(t)
@@ -335,6 +361,13 @@ def read_yield(facts, lf):
                 while w[0] == "call" and last_seg(w[1]) in ("map", "into_iter", "iter", "drain", "collect", "by_ref") and w[2]:
                     w = _strip_mut(w[2][0])
                 v = w
+        if v is not None and v[0] == "mut":
+            # the last thing done to the returned vector on this path: `v.clear()` hands back nothing, whatever it held
+            w = v
+            while w[0] == "mut" and last_seg(w[2]) not in ACCUMULATORS and last_seg(w[2]) != "clear":
+                w = look(w[1])
+            if w[0] == "mut" and last_seg(w[2]) == "clear" and "Vec" in w[2]:
+                return {"form": "returned", "vec": _strip_mut(v), "acc": [], "pushes": [], "empty": True}
         empty = v is not None and is_call(v, "new") and "Vec" in v[1]
         if empty:
             filled = [e for e in lf.events if e[0] == "call" and last_seg(e[3]) in ACCUMULATORS and e[4][2] and norm(_strip_mut(e[4][2][0])) == norm(v)]
